@@ -272,20 +272,14 @@ theorem af_readEnv : ∀ name args pos skip tol mode ts, NoItemBegin ts →
       · rw [if_pos ht] at h; cases h
       · rw [if_neg ht] at h; cases h
     · rw [if_neg herr] at h
-      cases hs : (readSpacer (ts1.drop 2)).2 with
-      | nil => rw [hs] at h; cases h
-      | cons o r3 =>
-        rw [hs] at h
+      cases ts1 with
+      | nil => cases h
+      | cons t1 r1 =>
         simp only at h
-        have s2 : Suf ts r3 := (s1.drop 2).trans (Suf.afterSpacer hs).suf
-        cases hk : gkindOfBegin o.cat with
-        | none => rw [hk] at h; cases h
-        | some k =>
-          rw [hk] at h
-          simp only at h
-          rcases Res.bind_eq_error.mp h with h | ⟨x, ts2, ha, h⟩
-          · exact aA _ _ _ _ _ (hy.suf s2) h
-          · cases h
+        have s2 : Suf ts r1 := s1.trans Suf.tail
+        rcases Res.bind_eq_error.mp h with h | ⟨x, ts2, ha, h⟩
+        · exact aC _ _ _ _ _ (hy.suf s2) h
+        · cases h
 
 theorem af_readEnvBody : ∀ skip tol mode ts, NoItemBegin ts →
     readEnvBody (f+1) skip tol mode ts ≠ .error .assertion := by
@@ -588,20 +582,14 @@ theorem tf_readEnv : ∀ name args pos skip mode ts, NoItem ts →
     · rw [if_pos herr] at h
       rw [if_pos rfl] at h; cases h
     · rw [if_neg herr] at h
-      cases hs : (readSpacer (ts1.drop 2)).2 with
-      | nil => rw [hs] at h; cases h
-      | cons o r3 =>
-        rw [hs] at h
+      cases ts1 with
+      | nil => cases h
+      | cons t1 r1 =>
         simp only at h
-        have s2 : Suf ts r3 := (s1.drop 2).trans (Suf.afterSpacer hs).suf
-        cases hk : gkindOfBegin o.cat with
-        | none => rw [hk] at h; cases h
-        | some k =>
-          rw [hk] at h
-          simp only at h
-          rcases Res.bind_eq_error.mp h with h | ⟨x, ts2, ha, h⟩
-          · exact tA _ _ _ _ (hy.suf s2) h
-          · cases h
+        have s2 : Suf ts r1 := s1.trans Suf.tail
+        rcases Res.bind_eq_error.mp h with h | ⟨x, ts2, ha, h⟩
+        · exact tC _ _ _ _ (hy.suf s2) h
+        · cases h
 
 theorem tf_readEnvBody : ∀ skip mode ts, NoItem ts →
     readEnvBody (f+1) skip true mode ts ≠ .error .type := by
